@@ -151,6 +151,9 @@ class _BaseLayout(MaildirLayout[_MaildirT], metaclass=ABCMeta):
     def path(self) -> str:
         return self._path
 
+    #: The longest name part, in bytes, that is tried as a file name.
+    _max_part = 250
+
     @classmethod
     def _split(cls, name: str, delimiter: str) -> _Parts:
         if name == 'INBOX':
@@ -159,6 +162,9 @@ class _BaseLayout(MaildirLayout[_MaildirT], metaclass=ABCMeta):
         for part in parts:
             if part in ('', '.', '..') or os.sep in part or '\0' in part:
                 # would resolve to the inbox itself or outside of it
+                raise FileNotFoundError(name)
+            elif len(os.fsencode(part)) > cls._max_part:
+                # no filesystem takes a longer file name
                 raise FileNotFoundError(name)
         return parts
 
@@ -279,6 +285,9 @@ class DefaultLayout(_BaseLayout[_MaildirT]):
             if '.' in part:
                 # would be another level of nesting in the folder name
                 raise FileNotFoundError(name)
+        if len(os.fsencode(cls._get_subdir(parts))) > cls._max_part:
+            # all levels end up in one file name
+            raise FileNotFoundError(name)
         return parts
 
     def _get_path(self, parts: _Parts) -> str:
@@ -335,6 +344,15 @@ class FilesystemLayout(_BaseLayout[_MaildirT]):
         maildir_type: The :class:`~mailbox.Maildir` class override.
 
     """
+
+    @classmethod
+    def _split(cls, name: str, delimiter: str) -> _Parts:
+        parts = super()._split(name, delimiter)
+        for part in parts:
+            if part in ('new', 'cur', 'tmp'):
+                # would be a sub-directory of the parent maildir itself
+                raise FileNotFoundError(name)
+        return parts
 
     def _get_path(self, parts: _Parts) -> str:
         return os.path.join(self._path, *parts)
